@@ -23,6 +23,31 @@ def replay(spec):
     if spec.get("facet") == "reuse":
         from .ssa import replay_reuse
         return replay_reuse(spec)
+    if kind == "follow":
+        # an interface built earlier, the model's values edited afterwards: simulating through the old interface must equal a
+        # fresh model with the new values
+        from bioscrape.simulator import SafeModelCSimInterface, DeterministicSimulator
+        for safe in (bool(spec.get("safe")),):
+            M = Model(**_args())
+            itf = (SafeModelCSimInterface if safe else ModelCSimInterface)(M)
+            if spec.get("reinit"):
+                M.py_initialize()
+            if spec.get("what") == "species":
+                M.set_species({"A": 12.0})
+                ref_kw = dict(_args(), initial_condition_dict={"A": 12.0, "B": 4})
+                F = Model(**ref_kw)
+            else:
+                M.set_params({"k1": 0.4})
+                F = Model(**_args())
+                F.set_params({"k1": 0.4})
+            py_seed_random(3)
+            got = py_simulate_model(tp, Interface=itf, stochastic=True).to_numpy()
+            py_seed_random(3)
+            want = py_simulate_model(tp, Model=F, stochastic=True).to_numpy()
+            if got.shape != want.shape or not np.allclose(got, want):
+                problems.append("simulating through an interface built before the edit: first row %s, a fresh model with the same values gives %s"
+                                % (got[0].tolist(), want[0].tolist()))
+        return {"reproduced": bool(problems), "observed": problems[:2], "expected": "the interface follows the model"}
     if kind == "rng_history":
         import bioscrape.random as R
         seed = int(spec.get("seed", 12345))
